@@ -599,3 +599,138 @@ if __name__ == "__main__":  # debugging aid:  python -m sa.rules.r4 [root]
         if o.status != "ok" or "-v" in sys.argv:
             print(o.status.upper(), o.line())
     print(cx.stats)
+
+
+# ------------------------------------------------------------------------------- address book gathers
+LOOKUP = "cirkit.backend.torch.circuits.LayerAddressBook.lookup"
+PLOOKUP = "cirkit.backend.torch.parameters.parameter.ParameterAddressBook.lookup"
+ENTRY = "cirkit.backend.torch.graph.modules.AddressBookEntry"
+
+
+def gather_contracts(ctx: Ctx) -> list[Ob]:
+    """R4g -- the gathers of ``LayerAddressBook.lookup`` (one iteration of its loop, interpreted on an
+    abstract entry) hand every layer the tensor its forward contract expects:
+      inner layer, inputs from one or two modules with (F1|F2, B, K) outputs and a fold index (F, H)
+                                                      ->  (F, H, B, K)
+      input layer with scope index (F, D) and circuit input (B, Dt)   ->  (F, B, D)
+      output entry with fold index (O,)                                ->  (O, B, K)  (then transposed to (B, O, K))"""
+    from ..shapes import new_obj, ClassV
+
+    repo = ctx.repo
+    f = repo.func(LOOKUP)
+    loops = [n for n in ast.walk(f.node) if isinstance(n, ast.For) and isinstance(n.iter, ast.Name) and n.iter.id == "self"]
+    if not loops:
+        return [unres("R4g", f.qualname, "loop", "no `for entry in self` loop: another formulation, no verdict", f.loc)]
+    loop = loops[0]
+    tgt = loop.target.id if isinstance(loop.target, ast.Name) else "entry"
+    F1, F2, K, DT, O = (Dim.sym(s) for s in ("F1", "F2", "K", "Dt", "O"))
+    obs: list[Ob] = []
+
+    def run(tag: str, entry_fields: dict[str, V], extra_env: dict[str, V], want: tuple[Dim, ...], module: V) -> None:
+        it = Interp(repo)
+        st = State()
+        ent = new_obj(st, repo.cls(ENTRY))
+        st.heap[ent.oid].update({"module": module, **entry_fields})
+        st.env.update({"self": Unknown("address book"), tgt: ent, **extra_env})
+        fr = Frame(f, 0)
+        try:
+            for _ in it.block(loop.body, st, fr):
+                pass
+        except ShapeError as e:
+            obs.append(viol("R4g", f.qualname, tag, f"{e.msg} [{e.where}]", f.loc))
+            return
+        except (PathLimit, RecursionError):
+            obs.append(unres("R4g", f.qualname, tag, "path limit", f.loc))
+            return
+        got = []
+        for v, s2 in fr.yields:
+            if isinstance(v, TupleV) and len(v.items) == 2 and isinstance(v.items[1], TupleV) and len(v.items[1].items) == 1:
+                x = v.items[1].items[0]
+                if isinstance(x, TensorV):
+                    got.append((s2.norm_shape(x.shape), s2))
+                elif isinstance(x, Unknown):
+                    got.append((None, s2))
+        if not got:
+            obs.append(unres("R4g", f.qualname, tag, "no gathered input yielded for this entry", f.loc))
+            return
+        for shp, s2 in got:
+            w = s2.norm_shape(want)
+            if shp is None:
+                obs.append(unres("R4g", f.qualname, tag, "gathered tensor not resolved", f.loc))
+            elif shp == w:
+                obs.append(ok("R4g", f.qualname, tag, fmt_shape(w), f.loc))
+            else:
+                obs.append(viol("R4g", f.qualname, tag, f"the layer is handed a tensor of shape {fmt_shape(shp)}, its forward contract expects {fmt_shape(w)}", f.loc))
+
+    inner = repo.cls(INNER)
+    st0 = State()
+    for n_mod, outs, ft in ((1, [TensorV((F1, B, K))], F1), (2, [TensorV((F1, B, K)), TensorV((F2, B, K))], F1 + F2)):
+        layer = ObjV(10_000 + n_mod, inner)
+        ids = TupleV((TupleV(tuple(mkint(i) for i in range(n_mod)), "list"),), "list")
+        run(f"inner[{n_mod} source module(s)]", {"in_module_ids": ids, "in_fold_idx": TupleV((TensorV((F, H), "int"),), "list")}, {"module_outputs": TupleV(tuple(outs), "list"), "in_graph": TensorV((B, DT))}, (F, H, B, K), layer)
+    # input layer: needs num_variables and scope_idx
+    inp = repo.cls(INPUT)
+    it0 = Interp(repo)
+    for tag, in_graph in (("input", TensorV((B, DT))),):
+        it = Interp(repo)
+        st = State()
+        lay = new_obj(st, inp)
+        st.heap[lay.oid].update({"num_input_units": IntV(D), "_scope_idx": TensorV((F, D), "int")})
+        ent = new_obj(st, repo.cls(ENTRY))
+        st.heap[ent.oid].update({"module": lay, "in_module_ids": TupleV((), "list"), "in_fold_idx": TupleV((), "list")})
+        st.env.update({"self": Unknown("address book"), tgt: ent, "module_outputs": TupleV((), "list"), "in_graph": in_graph})
+        fr = Frame(f, 0)
+        try:
+            for _ in it.block(loop.body, st, fr):
+                pass
+            ys = [(v.items[1].items[0], s2) for v, s2 in fr.yields if isinstance(v, TupleV) and len(v.items) == 2 and isinstance(v.items[1], TupleV) and len(v.items[1].items) == 1]
+            ts = [(x, s2) for x, s2 in ys if isinstance(x, TensorV)]
+            if not ts:
+                obs.append(unres("R4g", f.qualname, "input", "no gathered input yielded for an input layer", f.loc))
+            for x, s2 in ts:
+                got, w = s2.norm_shape(x.shape), s2.norm_shape((F, B, D))
+                if got == w:
+                    obs.append(ok("R4g", f.qualname, "input", fmt_shape(w), f.loc))
+                else:
+                    obs.append(viol("R4g", f.qualname, "input", f"an input layer is handed {fmt_shape(got)}, its forward contract expects (F, B, D) = {fmt_shape(w)}", f.loc))
+        except ShapeError as e:
+            obs.append(viol("R4g", f.qualname, "input", f"{e.msg} [{e.where}]", f.loc))
+        except (PathLimit, RecursionError):
+            obs.append(unres("R4g", f.qualname, "input", "path limit", f.loc))
+    # output entry
+    run("output", {"in_module_ids": TupleV((TupleV((mkint(0),), "list"),), "list"), "in_fold_idx": TupleV((TensorV((O,), "int"),), "list")}, {"module_outputs": TupleV((TensorV((F1, B, K)),), "list"), "in_graph": TensorV((B, DT))}, (O, B, K), NONE)
+    return _dedup(obs)
+
+
+def output_contract(ctx: Ctx) -> list[Ob]:
+    """R4g -- ``TorchCircuit._evaluate_layers`` turns the stacked outputs (O, B, K) of ``evaluate`` into
+    (B, O, K) -- 'the result has shape (batch, outputs, units)' -- and, for a circuit over no
+    variables (batch of one), into (O, K)."""
+    from ..shapes import BuiltinV, ScopeV, new_obj
+
+    repo = ctx.repo
+    f = repo.func("cirkit.backend.torch.circuits.TorchCircuit._evaluate_layers")
+    O, K = Dim.sym("O"), Dim.sym("K")
+    obs: list[Ob] = []
+    for tag, scope, b, want in (("scope non-empty", ScopeV(Dim.sym("Dc")), B, (B, O, K)), ("scope empty", ScopeV(Dim.const(0)), Dim.const(1), (O, K))):
+        it = Interp(repo)
+        st = State()
+        circ = new_obj(st, repo.cls("cirkit.backend.torch.circuits.TorchCircuit"))
+        it.consts["evaluate"] = TensorV((O, b, K))
+        st.heap[circ.oid].update({"_scope": scope, "evaluate": BuiltinV("const.evaluate")})
+        try:
+            res = list(it.call(f, [TensorV((b, Dim.sym("Dt")))], {}, st, selfv=circ))
+            for rv, s2 in res:
+                if not isinstance(rv, TensorV):
+                    obs.append(unres("R4g", f.qualname, f"outputs[{tag}]", f"result not resolved: {rv!r}", f.loc))
+                elif s2.norm_shape(rv.shape) == s2.norm_shape(want):
+                    obs.append(ok("R4g", f.qualname, f"outputs[{tag}]", fmt_shape(want), f.loc))
+                else:
+                    obs.append(viol("R4g", f.qualname, f"outputs[{tag}]", f"returns {fmt_shape(s2.norm_shape(rv.shape))}, the documented result is (batch, outputs, units) = {fmt_shape(want)}", f.loc))
+            if not res:
+                obs.append(unres("R4g", f.qualname, f"outputs[{tag}]", "every path raises", f.loc))
+        except ShapeError as e:
+            obs.append(viol("R4g", f.qualname, f"outputs[{tag}]", f"{e.msg} [{e.where}]", f.loc))
+        except (PathLimit, RecursionError):
+            obs.append(unres("R4g", f.qualname, f"outputs[{tag}]", "path limit", f.loc))
+    return _dedup(obs)
